@@ -2,10 +2,14 @@
    Only statements, `exact`, and Print Assumptions.  M = Model/ImscTime.v, Model/ImscTiming.v, Model/ImscStyles.v (transcription of
    ttconv/imsc/utils.py, attributes.py, elements.py), S = Spec/TtmlTimingSpec.v, Spec/TtmlStyleSpec.v,
    Spec/TtmlColorSpec.v (colour values: M = Model/ImscWrite.v parse_color, transcription of ttconv/utils.py).  All statements are for
-   unbounded inputs (every string, every attribute list, every XML tree, every parsing context, every style table). *)
-From TT Require Import Base.Prelude Base.ImscXml Model.ImscTime Model.ImscStyles Model.ImscTiming Spec.TtmlTimingSpec.
+   unbounded inputs (every string, every attribute list, every XML tree, every parsing context, every style table).
+   An XML tree (Base/ImscXml.v xml) has any qualified name as tag and any children, each with its own text and tail: the trees the
+   theorems quantify over - C04_interval, C04_process_total, C04_read_total, C04_bad_attr_* - contain, anywhere, children that are no
+   content elements (tt:metadata and the ttm: vocabulary, foreign elements, unknown tt: elements, the comment and processing-instruction
+   nodes of ElementTree); C04_noncontent_* say what the reader does with them. *)
+From TT Require Import Base.Prelude Base.ImscXml Model.ImscTime Model.ImscStyles Model.ImscTiming Spec.TtmlTimingSpec Spec.TtmlContentSpec.
 From TT Require Import Model.ImscWrite Spec.TtmlColorSpec Proofs.C04.Color.
-From TT Require Import Proofs.C04.TimeSyntax Proofs.C04.TimeReject Proofs.C04.Interval Proofs.C04.Total Proofs.C04.Params Proofs.C04.BadAttr Proofs.C04.Styles Proofs.C04.Flatten.
+From TT Require Import Proofs.C04.TimeSyntax Proofs.C04.TimeReject Proofs.C04.Interval Proofs.C04.Total Proofs.C04.Params Proofs.C04.BadAttr Proofs.C04.Styles Proofs.C04.Flatten Proofs.C04.Transparent.
 From Coq Require Import QArith.
 Local Open Scope Z_scope.
 
@@ -155,6 +159,46 @@ Proof. exact rgba_above_255_rejected. Qed.
 Theorem C04_color_characters : forall s c, parse_color s = Some c -> forallb plain_char s = true.
 Proof. exact parse_color_chars. Qed.
 
+(* ---- children that are no content elements -------------------------------------------------------------------------------------------------
+   Elements of the TTML2 metadata vocabulary, comments, processing instructions and elements of foreign namespaces are outside the timed
+   vocabulary of the specification and outside the content classes of the reader, whatever their attributes; the reader skips such a
+   child in every context (its tail is read by the parent). *)
+Theorem C04_noncontent_vocabulary : forall q attrs,
+  In q metadata_vocabulary \/ is_comment_or_pi q = true \/ is_foreign q = true -> s_kind q attrs = None /\ classify q attrs = None.
+Proof. exact noncontent_vocabulary. Qed.
+Theorem C04_noncontent_skipped : forall ev pc c,
+  In (x_tag c) metadata_vocabulary \/ is_comment_or_pi (x_tag c) = true \/ is_foreign (x_tag c) = true -> process ev pc c = PSkip.
+Proof. exact noncontent_skipped. Qed.
+Theorem C04_untimed_skipped : forall ev pc c, timed c = false -> process ev pc c = PSkip.
+Proof. exact untimed_skip. Qed.
+
+(* transparency: for every tree x, environment and parsing context, the reader returns for x what it returns for [strip x] - x without
+   every child that its parent does not read as content (Spec/TtmlContentSpec.v keeps: a content element keeps the timed vocabulary, a
+   region also its nested styles, a set nothing; recursively), the tail of each removed child appended to the text that precedes it -
+   up to the split of adjacent anonymous spans: same outcome, same kind, same desired begin and end, same animation step, same
+   content-model error flag, and model elements that are [same_node]: equal but for runs of adjacent anonymous spans t1 .. tn where
+   the other has the one anonymous span t1 ++ .. ++ tn.  In particular the implicit end is the same: text after a non-content child
+   makes a paragraph indefinite exactly like any other text.
+   Hypothesis: x is outside the shape style_after_break (a region with timeContainer="seq" in which a timed child other than a set is
+   followed by a child that is not kept and then by a nested style): there the reader is not transparent
+   (Findings/C04.v C04_noncontent_children_transparent_refuted; no valid TTML2 document has the shape). *)
+Theorem C04_noncontent_children_transparent : forall ev pc x,
+  style_after_break x = false -> pres_rel (process ev pc x) (process ev pc (strip x)).
+Proof. intros ev pc x H. exact (transparent ev x H pc). Qed.
+(* the whole document: tt, head, layout and styling read the children they know (head and body; layout and styling; region; initial and
+   style) and nothing else - no other child, no text, no tail - and the body and the regions are read as above *)
+Theorem C04_read_noncontent_transparent : forall tm vl x, x_tag x = T_tt -> style_after_break x = false ->
+  dres_rel (read_tt tm vl x) (read_tt tm vl (strip x)).
+Proof. exact read_tt_transparent. Qed.
+(* the specification itself is transparent, without exception: the TTML2 interval of every tree is the interval of the tree without the
+   children that are no content (a text after such a child makes a paragraph indefinite like any other text; nothing inside such a child
+   counts) *)
+Theorem C04_spec_interval_transparent : forall tv x pseq sync, interval tv pseq sync (strip x) = interval tv pseq sync x.
+Proof. intros tv x pseq sync. exact (interval_strip tv x pseq sync). Qed.
+(* what [same_node] keeps besides kinds, times, attributes and styles: the characters, in order *)
+Theorem C04_same_node_same_characters : forall n n', same_node n n' -> chars n = chars n'.
+Proof. exact same_node_chars. Qed.
+
 (* non-vacuity: "00:00:01:12" at 25 fps is 1.48 s; <div begin="1s"><p dur="2s"/><p end="5s"/></div> ends at 6 s; a seq container whose
    first child never ends is read, with that child only *)
 Example C04_example_clock_frames :
@@ -174,6 +218,39 @@ Example C04_example_seq_indefinite :
   | _ => false
   end = true.
 Proof. vm_compute. reflexivity. Qed.
+(* children that are no content: <p>Hello <metadata begin="5s"><ttm:desc>x</ttm:desc></metadata>world<!-- c -->!<f:x/></p> is outside the
+   shape style_after_break, [strip] gives <p>Hello world!</p>, the reader makes three anonymous spans of the first and one of the second;
+   <p><span begin="1s" end="2s">one</span><metadata/>two</p> never ends (the tail of the metadata element is text of the paragraph), and
+   C04_interval applies to it: the specification says the same *)
+Definition ex_env : env := mkEnv 1 (30 # 1) [] (fun _ _ => None) (fun _ _ => true) [].
+Definition ex_pc : pctx := mkPctx true (Some 0%Q) false [] true.
+Definition ex_mixed : xml :=
+  X T_p [] (Some [72; 101; 108; 108; 111; 32]) None
+    [X T_metadata [(A_begin, [53; 115])] None (Some [119; 111; 114; 108; 100]) [X T_ttm_desc [] (Some [120]) None []];
+     X T_comment [] (Some [32; 99; 32]) (Some [33]) [];
+     X (100, [120]) [] None None []].
+Example C04_example_noncontent_strip :
+  style_after_break ex_mixed = false /\
+  strip ex_mixed = X T_p [] (Some [72; 101; 108; 108; 111; 32; 119; 111; 114; 108; 100; 33]) None [] /\
+  match process ex_env ex_pc ex_mixed, process ex_env ex_pc (strip ex_mixed) with
+  | POk r, POk r' =>
+      match r_node r, r_node r' with
+      | Some (MElem KP _ _ None _ _ _ _ _ [MElem KSpan _ _ _ _ _ _ _ _ [MText a]; MElem KSpan _ _ _ _ _ _ _ _ [MText b]; MElem KSpan _ _ _ _ _ _ _ _ [MText c]]),
+        Some (MElem KP _ _ None _ _ _ _ _ [MElem KSpan _ _ _ _ _ _ _ _ [MText abc]]) => (a ++ b ++ c)%list = abc
+      | _, _ => False
+      end
+  | _, _ => False
+  end.
+Proof. repeat split. Qed.
+Definition ex_tail : xml :=
+  X T_p [] None None
+    [X T_span [(A_begin, [49; 115]); (A_end, [50; 115])] (Some [111; 110; 101]) None []; X T_metadata [] None (Some [116; 119; 111]) []].
+Example C04_example_noncontent_tail :
+  match process ex_env ex_pc ex_tail with
+  | POk r => r_des_end r = None /\ r_pushfail r = false /\ snd (interval (tv_of ex_env) false 0 ex_tail) = None
+  | _ => False
+  end.
+Proof. repeat split. Qed.
 (* a style declared before the styles it references (c -> b -> a, declared c, b, a): the hypotheses of C04_styles_flatten hold and the nearer style wins *)
 Example C04_example_flatten :
   let ta := mkSty [97] [(1, SO 10); (2, SO 20)] [] in
@@ -210,3 +287,5 @@ Print Assumptions C04_styles_inline.  Print Assumptions C04_styles_set_if_absent
 Print Assumptions C04_styles_flatten.  Print Assumptions C04_styles_flatten_order_independent.
 Print Assumptions C04_color_accepted_iff.  Print Assumptions C04_color_rejected_iff.  Print Assumptions C04_color_rgba8.  Print Assumptions C04_color_ttml_accepted.
 Print Assumptions C04_color_hex_length.  Print Assumptions C04_color_rgb_above_255.  Print Assumptions C04_color_rgba_above_255.  Print Assumptions C04_color_characters.
+Print Assumptions C04_noncontent_vocabulary.  Print Assumptions C04_noncontent_skipped.  Print Assumptions C04_untimed_skipped.
+Print Assumptions C04_noncontent_children_transparent.  Print Assumptions C04_read_noncontent_transparent.  Print Assumptions C04_same_node_same_characters.  Print Assumptions C04_spec_interval_transparent.
